@@ -689,10 +689,10 @@ func (n *Node) ReplicationLag(sstatus ReplicaStatus) (*float64, error) {
 func (n *Node) GTIDExecuted() (*GTIDExecuted, error) {
 	status := new(GTIDExecuted)
 	err := n.queryRow(queryGTIDExecuted, nil, status)
-	if errors.Is(err, sql.ErrNoRows) {
-		return nil, nil
+	if err != nil {
+		return nil, err
 	}
-	return status, err
+	return status, nil
 }
 
 // GTIDExecuted returns global transaction id executed
